@@ -89,8 +89,55 @@ RANDOM_CFGS = {
     "b_conveyor_nonacc": (dict(kind="conveyor", mode="FIFO", cap=4, fdelay=1, transit=0, trig=0, slot=1, acc=0), {}, 2, True),
     "b_slotted_acc": (dict(kind="slotted", mode="FIFO", cap=3, fdelay=1, transit=0, trig=0, slot=2, acc=1), {}, 2, True),
     "b_slotted_nonacc": (dict(kind="slotted", mode="FIFO", cap=2, fdelay=1, transit=0, trig=0, slot=3, acc=0), {}, 2, True),
+    "b_slotted_prio": (dict(kind="slotted", mode="FIFO", cap=2, fdelay=1, transit=0, trig=0, slot=1, acc=1, prio_api=True),
+                       dict(prios=(0, 1, 1, 3)), 2, True),
+    "b_conveyor_prio": (dict(kind="conveyor", mode="FIFO", cap=3, fdelay=1, transit=0, trig=0, slot=1, acc=1, prio_api=True),
+                        dict(prios=(0, 2, 2, 5)), 2, True),
     "r_fleet_store": (dict(kind="fleet", mode="FIFO", cap=2, fdelay=4, transit=2, trig=0), dict(prios=(0, 1)), 2, False),
 }
+
+
+SCEN_CFGS = {
+    # name: (cfg, via_edge); traces go to rand_scen_* (all ledger clauses + binding inference) or rbelt_scen_* (belts)
+    "scen_buffer_fifo": (dict(kind="buffer", mode="FIFO", cap=4, fdelay=1, transit=0, trig=0), True),
+    "scen_buffer_lifo": (dict(kind="buffer", mode="LIFO", cap=4, fdelay=1, transit=0, trig=0), True),
+    "scen_fleet": (dict(kind="fleet", mode="FIFO", cap=4, fdelay=3, transit=1, trig=0), True),
+    "scen_fleet_t0": (dict(kind="fleet", mode="FIFO", cap=3, fdelay=2, transit=0, trig=0), False),
+    "scen_prio": (dict(kind="prio", mode="FIFO", cap=4, fdelay=1, transit=0, trig=0), False),
+    "scen_plain": (dict(kind="plain", mode="FIFO", cap=4, fdelay=1, transit=0, trig=0), False),
+    "scen_filter": (dict(kind="filter", mode="FIFO", cap=4, fdelay=1, transit=0, trig=0), False),
+    "b_scen_slotted": (dict(kind="slotted", mode="FIFO", cap=4, fdelay=1, transit=0, trig=1, slot=1, acc=1), True),
+    "b_scen_conveyor": (dict(kind="conveyor", mode="FIFO", cap=4, fdelay=1, transit=0, trig=0, slot=1, acc=1), True),
+}
+
+
+def _scenario_one(args):
+    """Systematic cancellation scenarios: n items offered, k retrievals granted, the i-th cancelled, more reserved, all taken
+    (every n, k, i for small numbers; both orders of taking)."""
+    name, outdir = args
+    from .store_driver import RealStore, cancel_scenario, crash_event
+    cfg, via_edge = SCEN_CFGS[name]
+    traces = []
+    for n in range(2, min(cfg["cap"], 4) + 1):
+        for k in range(2, n + 1):
+            for ci in range(k):
+                for extra in (1, 2):
+                    for order in ("fifo", "rev"):
+                        real = RealStore(cfg, nprocs=2, via_edge=via_edge)
+                        tr = {"cfg": cfg, "src": "scenario n=%d k=%d cancel=%d extra=%d %s" % (n, k, ci, extra, order), "name": name,
+                              "ev": [real.settle()]}
+                        try:
+                            tr["ev"].extend(cancel_scenario(real, n, k, ci, extra, order))
+                        except Exception as ex:
+                            if not common.from_library(ex):
+                                raise
+                            tr["src"] += " crash:%s" % type(ex).__name__
+                            tr["ev"].append(crash_event(real, tr["ev"]))
+                        traces.append(tr)
+    fn = ("rbelt_%s.json" if name.startswith("b_") else "rand_%s.json") % name
+    common.save_json(os.path.join(outdir, fn), traces)
+    return {"name": name, "traces": len(traces), "events": sum(len(t["ev"]) for t in traces),
+            "crashes": [t["src"] for t in traces if "crash:" in t["src"]][:3]}
 
 
 def _random_one(args):
@@ -192,9 +239,10 @@ def corpus(tier, seed):
     with mp.Pool(6 if tier == "quick" else 8) as pool:
         pa = pool.apply_async(_prioreq_one, ((seed, 40 if tier == "quick" else 600, 120, d),))
         ra = pool.map_async(_random_one, rjobs)
+        sa = pool.map_async(_scenario_one, [(n, d) for n in SCEN_CFGS])
         wa = pool.map_async(_walk_one, jobs)
         walks = wa.get()
-        rands = ra.get() + [pa.get()]
+        rands = ra.get() + sa.get() + [pa.get()]
     st = {"walks": walks, "random": rands, "wall": round(time.time() - t0, 1)}
     common.save_json(stp, st)
     return d, st
